@@ -33,6 +33,10 @@ type SimContext struct {
 	// FarDeadline: Deadline() reports a deadline an hour away (a context made
 	// with a long timeout and cancelled early; cancellation must still win)
 	FarDeadline bool
+	// NearDeadline: Deadline() always reports "half a millisecond from now":
+	// a real deadline that is close but has not passed (and, on the simulated
+	// clock, passes only when the cancellation fires)
+	NearDeadline bool
 
 	// TicksAfter / PollsAfter count what happened after the cancellation.
 	TicksAfter int64
@@ -280,6 +284,12 @@ var processStart = time.Now()
 func (c *SimContext) Deadline() (time.Time, bool) {
 	if c.FarDeadline {
 		return processStart.Add(time.Hour), true
+	}
+	if c.NearDeadline {
+		if c.fired {
+			return time.Now().Add(-time.Microsecond), true
+		}
+		return time.Now().Add(500 * time.Microsecond), true
 	}
 	return time.Time{}, false
 }
